@@ -6,6 +6,9 @@ import sys, os, json, glob, subprocess, re, argparse
 from concurrent.futures import ThreadPoolExecutor
 V = os.path.dirname(os.path.dirname(os.path.abspath(__file__)))
 
+SEED = '1'
+
+
 def one(d):
     sid = os.path.basename(d)
     pid = sid.split('-')[0]
@@ -17,7 +20,7 @@ def one(d):
     except Exception:
         ids = [pid]
     ids = [pid] + [i for i in ids if i != pid]
-    r = subprocess.run(['python3', os.path.join(V, 'tools', 'seedtest.py'), p] + ids[:2], capture_output=True, text=True, timeout=7200)
+    r = subprocess.run(['python3', os.path.join(V, 'tools', 'seedtest.py'), p] + ids[:2] + ['--seed', SEED], capture_output=True, text=True, timeout=7200)
     out = r.stdout + r.stderr
     if 'patch does not apply' in out:
         st = 'NOAPPLY'
@@ -33,20 +36,22 @@ def one(d):
     return sid, dict(status=st, caught_by=caught, violations=nv, tie_only=nf, patch=os.path.relpath(p, V), first=first[0][:300] if first else None)
 
 def main():
-    ap = argparse.ArgumentParser(); ap.add_argument('seeds', nargs='*'); ap.add_argument('-j', type=int, default=3)
+    ap = argparse.ArgumentParser(); ap.add_argument('seeds', nargs='*'); ap.add_argument('-j', type=int, default=3); ap.add_argument('--seed', default='1'); ap.add_argument('--out', default='REGRESSION.json')
     a = ap.parse_args()
+    global SEED
+    SEED = a.seed
     ds = sorted(glob.glob(os.path.join(V, 'seeded', 'C*-*')))
     if a.seeds:
         ds = [d for d in ds if os.path.basename(d) in a.seeds]
     with ThreadPoolExecutor(a.j) as ex:
         res = dict(ex.map(one, ds))
     head = subprocess.check_output(['git', '-C', '/repo', 'rev-parse', '--short', 'HEAD'], text=True).strip()
-    path = os.path.join(V, 'seeded', 'REGRESSION.json')
+    path = os.path.join(V, 'seeded', a.out)
     old = {}
     if os.path.exists(path) and a.seeds:
         old = json.load(open(path)).get('results', {})
     old.update(res)
-    json.dump(dict(repo_head=head, results=old), open(path, 'w'), indent=1)
+    json.dump(dict(repo_head=head, verif_seed=SEED, results=old), open(path, 'w'), indent=1)
     bad = [k for k, v in res.items() if v['status'] != 'CAUGHT']
     print('not caught:', bad)
     return 1 if bad else 0
